@@ -137,6 +137,26 @@ def drift(prop, repo):
                 out.append("%s::%s%s" % (f, k, "" if k in cur and k in old else (" (added)" if k in cur else " (removed)")))
     return sorted(set(out))
 
+def not_named(prop, repo, root=ROOT):
+    """functions of the property's anchored files whose name occurs nowhere in any harness source: a rough, textual measure of API surface the correspondence never calls by name (operators, trait
+    plumbing and the library's own tests excluded by name pattern)"""
+    hs = ""
+    import glob
+    for f in sorted(glob.glob(os.path.join(root, "harness", "src", "bin", "*.rs")) + glob.glob(os.path.join(root, "harness", "src", "*.rs"))
+                    + glob.glob(os.path.join(root, "harness-pl", "src", "bin", "*.rs"))):
+        try: hs += open(f).read()
+        except OSError: pass
+    out = []
+    for f in anchor_files().get(prop, []):
+        fp = fingerprint(os.path.join(repo, f)) or {}
+        for k in fp:
+            name = k.split("#")[0]
+            if name.startswith("(") or name.startswith("test") or name in ("fmt", "from", "into", "default", "eq", "cmp", "partial_cmp", "add", "sub", "mul", "div", "neg", "deref", "clone", "next", "next_back", "size_hint", "len"):
+                continue
+            if not re.search(r"\b%s\b" % re.escape(name), hs):
+                out.append("%s::%s" % (f.split("/")[-1], name))
+    return sorted(set(out))
+
 def main(argv):
     repo = os.environ.get("TEVEC_REPO", "/repo")
     allf = sorted({f for fs in anchor_files().values() for f in fs} | {f for fs in EXTRA.values() for f in fs})
